@@ -7,7 +7,7 @@ HOOK_COMMITS = ["5f02cf6", "372d4f3"]
 # id -> (engine, technique, level text, level note, design_ref)
 CHECKS = {
  "C17": ("vcheck", "exhaustive enumeration of all codes and all mnemonic case variants against a hand-written IANA table (round-trip oracle)",
-         "Exhaustive over the whole finite domain: every 16-bit TYPE/CLASS/QTYPE/QCLASS value, every case variant of every mnemonic and of the TYPE/CLASS prefix for every n, all opcode/RCODE octets, all extended RCODEs.",
+         "Exhaustive over the whole finite domain: every 16-bit TYPE/CLASS/QTYPE/QCLASS value, every case variant of every mnemonic and of the TYPE/CLASS prefix for every n, all opcode/RCODE octets, all extended RCODEs. A sampled sub-check repeats the conversions inside histories of 2-15 steps on one fresh thread that also parse text which is no code's text (state left behind by a rejected parse must not matter).",
          "Trusts the IANA mnemonic table transcribed in c17.rs.", "§4 C17"),
 }
 
@@ -49,7 +49,7 @@ CHECKS["C22"] = ("vcheck", "model-based stateful testing: proptest insert/remove
     "Generated search with shrinking over histories (<= 50 ops, nested names incl. root, three classes, all entry kinds, re-insertion of the same zone object with new metadata); after every step every pool name is looked up (longest suffix) and fetched (exact) in every class and the iteration is compared as a set.",
     "Trusts vmodel::zone::MCatalog.", "§4 C22")
 
-_S = "Trusts vmodel (wire decoder, Appendix B request scanner, Appendix A resolver) and the harness's own request encoder; RRL is off except in C01."
+_S = "Trusts vmodel (wire decoder, Appendix B request scanner, Appendix A resolver) and the harness's own request encoder; RRL is off or configured never to limit (10^6 responses per second and stream) except in C01."
 CHECKS["C01"] = ("vcheck", "proptest structured requests + byte mutator + raw byte strings over generated catalogs/servers; oracle = no panic (catch_unwind)",
     "Generated search with shrinking: catalogs incl. malformed RDATA and missing SOA, TSIG key sets, payload sizes 512-65535, RRL on/off, both transports, response buffer of exactly the documented minimum size; a second sub-check builds responses of 16.3-16.5 KiB (TCP) whose first RDATA name after 16 KiB of filler starts at a generated offset around 16383. The thorough tier adds the libFuzzer target fz_server when built.",
     _S, "§4 C01")
@@ -107,16 +107,16 @@ CHECKS["C28"] = ("qshuttle", "two generated searches with one oracle (exact coun
 CHECKS["C29"] = ("qshuttle", "randomised schedule exploration (shuttle random + PCT schedulers) of the unmodified thread-pool source with condition-variable timeouts that can fire at any scheduling point; proptest workloads (workers, lingering, submitters, shut-down points, injected spawn failure); oracle = ledger invariants over the history of every execution",
     "Generated search with shrinking over workloads x 60-250 schedules each. Ledger: accepted => ran exactly once and had finished when await_shutdown returned; rejected => never ran; nothing runs after await_shutdown returned; submissions begun after a shut-down returned are rejected with ShuttingDown; no deadlock (shuttle's detector), every call returns.",
     _Q + " Executions that hit the 20000-step bound (unfair PCT schedules spinning in the respawn loop after a pool-only shut-down) are abandoned and counted, not judged.", "§4 C29")
-CHECKS["C32"] = ("qshuttle", "randomised schedule exploration (shuttle random + PCT schedulers) of proptest workloads: a swapper replacing catalogs and TSIG key sets while 2-3 threads issue signed/unsigned queries whose every record encodes the catalog generation; oracle = invariant over each response (one generation, inside the [installed-before, begun-by-return] bracket; MAC under the signing generation's key or a consistent BADSIG)",
+CHECKS["C32"] = ("qshuttle", "randomised schedule exploration (shuttle random + PCT schedulers) of proptest workloads: one swapper thread, or two (one for catalogs, one for key sets), replacing catalogs and TSIG key sets while 2-3 threads issue signed/unsigned queries whose every record encodes the catalog generation; oracle = invariant over each response (one generation, inside the [installed-before, begun-by-return] bracket; MAC under the signing generation's key or a consistent BADSIG)",
     "Generated search with shrinking over workloads (2-4 generations, swap order, five query kinds covering answer/authority/additional sections, UDP/TCP) x 60-250 schedules each.",
     _Q + " TSIG times use the real clock with a one-hour fudge. As for C28, an OS-thread stress on the normal build (vcheck C32S: 2-8 query threads against a swapper installing 3-200 generations, same bracket oracle) runs first in both tiers and is folded into the same evidence file.", "§4 C32")
 
 CHECKS["C30"] = ("vcheck", "proptest batches of framed requests (valid, malformed, response-less) cut into generated segments with generated pauses and pipelined over loopback TCP, plus UDP datagrams from two client sockets, against running blocking and Tokio providers in five configurations; differential against handle_message on an identically configured twin server",
-    "Generated search with shrinking; TCP: responses in request order, framed, octet-equal to the twin's, nothing extra, connection closed after the first response-less request (or after the client's EOF), also for batches ending in an incomplete frame; UDP: at most one datagram per request, equal to the twin's, from the server's address, to the socket that asked, not larger than the payload size.",
+    "Generated search with shrinking; TCP: responses in request order, framed, octet-equal to the twin's, nothing extra, connection closed after the first response-less request (or after the client's EOF), also for batches ending in an incomplete frame; UDP: at most one datagram per request, equal to the twin's, from the server's address, to the socket that asked, not larger than the payload size. Sub-check io-large-requests: 1-3 TCP requests padded to 508-65535 octets at the lengths around powers of two, half of the cases on the Tokio provider; io-backpressure: hundreds of pipelined requests with large answers while the client does not read.",
     "OS thread scheduling is not owned (segmentation, pipelining and pauses are). Client-side timeouts (3 s; the server's read timeout is 5 s) are retried on a fresh connection and reported only after three failures in a row; a close with unread pipelined data behind it (kernel RST may discard earlier responses) is counted, not judged; TSIG time-signed of unsigned error responses may differ by 5 s.", "§4 C30")
 
 CHECKS["C31"] = ("vcheck", "model-based stateful testing against the real daemon: proptest histories of configuration and zone-file edits over five nested zones with SIGHUP after each step; oracle = reference model 'latest good data per zone' compared through UDP probes whose answers identify zone and version",
-    "Generated search with shrinking over histories of 1-8 steps (per zone: configured or not x keep / new valid version / touch / syntactically broken / fails validation / deleted / renamed; generated order of the zones in the configuration; blocking and Tokio providers); 15 probes per step (apex, www, nonexistent name of every zone) judged for REFUSED / SERVFAIL / data of (zone, version) / negative answer of the enclosing (zone, version).",
+    "Generated search with shrinking over histories of 1-8 steps (per zone: configured or not x keep / new valid version, every third one with validation warnings only / touch / syntactically broken / fails validation, alone or together with warnings / deleted / renamed; generated order of the zones in the configuration; blocking and Tokio providers); 15 probes per step (apex, www, nonexistent name of every zone) judged for REFUSED / SERVFAIL / data of (zone, version) / negative answer of the enclosing (zone, version).",
     "quandaryd is built from /repo's working tree into /verif/.target-daemon and run as a child process on a loopback port; a sentinel zone whose TXT carries the step number tells when the atomically swapped catalog is live; modification times are set explicitly and strictly increase with every write; a daemon that does not come up or never shows the sentinel is exit 2, not a violation.", "§4 C31")
 
 NOT_YET = {}
